@@ -1120,10 +1120,10 @@ def dup_context(a, path):
     if not o['dups'] or e['kind'] != 'file':
         return None
     b = content_bytes(e['content'])
-    if 'hex' in e['content']:
-        return 'murmur3-collision'
     if a['dupcount'][b] > 1:
         return 'identical-contents'
+    if 'hex' in e['content']:
+        return 'murmur3-collision'
     if a['sizes'][len(b)] > 1:
         return 'same-size'
     return None
